@@ -107,7 +107,7 @@ def _addc(dst, src):
 
 
 def write_replay(cid, v):
-    d = os.path.join(VERIF_ROOT, "replays")
+    d = os.environ.get("VERIF_REPLAY_DIR") or os.path.join(VERIF_ROOT, "replays")
     os.makedirs(d, exist_ok=True)
     blob = json.dumps({"property": cid, "violation": v}, indent=1, sort_keys=True, default=repr)
     name = f"{cid}_{hashlib.sha256(blob.encode()).hexdigest()[:12]}.json"
@@ -189,8 +189,9 @@ def main(cid, tier, seed, replay=None):
         "wall_s": round(time.time() - t0, 2),
         "violations": len(unlisted),
     }
-    os.makedirs(os.path.join(VERIF_ROOT, "evidence"), exist_ok=True)
-    with open(os.path.join(VERIF_ROOT, "evidence", f"{cid}.json"), "w") as f:
+    evdir = os.environ.get("VERIF_EVIDENCE_DIR") or os.path.join(VERIF_ROOT, "evidence")
+    os.makedirs(evdir, exist_ok=True)
+    with open(os.path.join(evdir, f"{cid}.json"), "w") as f:
         json.dump(ev, f, indent=1, sort_keys=True, default=repr)
     print(f"{cid} tier={tier} seed={seed}: evaluations={merged['evaluations']} "
           f"distinct={len(merged['keys'])} violations={len(unlisted)} known={sum(v['count'] for v in known_hit.values())} "
